@@ -116,7 +116,7 @@ class Transport:
         if scheme in ("http", "https", "file"):
             if self.cache:
                 response = self.cache.get(url)
-                if response:
+                if response is not None:
                     return bytes(response)
 
             content = self._load_remote_data(url)
